@@ -454,8 +454,8 @@ func mkDatagram(t *rapid.T, class string, c spec.Call) []byte {
 	case "short":
 		d = d[:rapid.IntRange(0, 63).Draw(t, "len")]
 	case "long":
-		n := rapid.SampledFrom([]int{65, 66, 128, 1023, 1024, 1025, 2047, 2048, 2049, 3000, 8192}).Draw(t, "len")
-		switch rapid.IntRange(0, 3).Draw(t, "long.kind") {
+		n := rapid.SampledFrom([]int{65, 66, 128, 1023, 1024, 1025, 2047, 2048, 2049, 2049, 3000, 3000, 8192, 9000, 65000}).Draw(t, "len")
+		switch rapid.IntRange(0, 5).Draw(t, "long.kind") {
 		case 0:
 			// whole well-formed messages back to back (what coalesced TCP writes, or a controller that answers twice in one
 			// datagram, look like): the reply 2..16 times, or the reply followed by a status message of the same controller
@@ -710,10 +710,38 @@ func TestExhaustiveSequences(t *testing.T) {
 	ev.Note("exhaustive_class_sequences_up_to_length_3", len(seqs))
 }
 
+// oversize datagrams in front of a valid reply, on both UDP paths, for every length class around the sizes of the usual receive
+// buffers (1024, 2048, 4096, 8192, the largest UDP payload): ignored on the broadcast path, fatal on the directed one
+func sweepOversize(yield func(seqCase) bool) {
+	i := 0
+	for _, path := range []int{1, 0} {
+		for _, n := range []int{65, 1024, 1025, 2048, 2049, 3000, 4096, 4097, 8192, 8193, 9000, 65000} {
+			for _, op := range []string{"GetTime", "GetStatus", "GetCardByID"} {
+				for _, twice := range []bool{false, true} {
+					i++
+					if !ev.Mine(i) || (!ev.Thorough() && i%3 != 0) {
+						continue
+					}
+					call := spec.Call{Op: op, Serial: 405419896, Card: 8165538, Door: 1}
+					valid := validFor(call, make([]byte, 64))
+					long := append(append([]byte(nil), valid...), make([]byte, n-64)...)
+					c := seqCase{Layer: "socket", Path: path, Call: call, Datagrams: [][]byte{long, valid}, Via: []bool{false, false}}
+					if twice {
+						c.Datagrams, c.Via = [][]byte{long, long, valid}, []bool{false, false, false}
+					}
+					if !yield(c) {
+						return
+					}
+				}
+			}
+		}
+	}
+}
+
 func props() []rp.Prop {
 	return []rp.Prop{
 		rp.P[seqCase]{Name: "hook-seq", Checks: ev.Pick(40000, 4000000) / ev.Shards(), Gen: genSeq("hook", 12), Check: check},
-		rp.P[seqCase]{Name: "socket-seq", Checks: ev.Pick(1600, 96000) / ev.Shards(), Gen: genSeq("socket", 6), Check: check},
+		rp.P[seqCase]{Name: "socket-seq", Checks: ev.Pick(1600, 96000) / ev.Shards(), Gen: genSeq("socket", 6), Sweep: sweepOversize, Check: check},
 		rp.P[deadlineCase]{Name: "broadcast-deadline", Checks: ev.Pick(120, 8000) / ev.Shards(), Gen: genDeadline, Check: checkDeadline},
 	}
 }
